@@ -49,7 +49,7 @@ class C2:
 
 
 IFACES = {1: HasFoo, 2: HasBar}
-CONTRACTS = {1: (b'contract-1', C1()), 2: (b'contract-2', C2())}
+CONTRACTS = {1: (b'contract-1', C1()), 2: (b'contract-2', C2()), 3: (b'contract-1', C1())}     # 3: another object under the id of 1
 
 
 class World:
@@ -100,7 +100,7 @@ class World:
             out[s] = sorted(ids)
             if len(lst) != len(set(map(id, lst))) or foreign:
                 out[s] = out[s] + ['dup-or-foreign']
-        out['contr'] = sorted(i for i, (cid, _) in CONTRACTS.items() if cid in F._contracts)
+        out['contr'] = sorted(i for i, (cid, obj) in CONTRACTS.items() if F._contracts.get(cid) is obj)
         out['ifaces'] = sorted(i for i, t in IFACES.items() if t.__name__ in F._contract_interfaces)
         out['alias'] = sorted(i for i, (a, _) in ALIASES.items() if a in F.opcode_aliases)
         return out
@@ -153,7 +153,7 @@ class World:
                 script = bytes.fromhex('0500' '06' '02aa' '5901' '06')      # msg x00 pop0 push xaa check_template x01 pop0
                 tape, stack, _ = F.run_script(script, cache, contracts, plugins=plugins)
                 used = {sc: sorted({i for (s2, i) in self.called if s2 == sc}) for sc in SCOPE}
-                got_c = sorted(i for i, (cid, _) in CONTRACTS.items() if cid in tape.contracts)
+                got_c = sorted(i for i, (cid, obj) in CONTRACTS.items() if tape.contracts.get(cid) is obj)
                 if used['sx'] != before['sx'] or used['ct'] != before['ct'] or got_c != before['contr']:
                     return 'ok', f"run used plugins {used} contracts {got_c} but active are {before}"
                 if cache != {'sigfield1': b'\xaa'} or contracts != {} or plugins != {}:
@@ -252,7 +252,7 @@ def record_history(seed: int, n: int):
             elif f == 'reset_plugins':
                 c = {'f': f, 's': r.choice(['sx', 'ct']), 'x': 0}
             elif f in ('add_contract', 'remove_contract', 'add_iface', 'remove_iface', 'add_alias'):
-                c = {'f': f, 's': r.choice(['', 'lower']) if f == 'add_alias' else '', 'x': r.randrange(1, 3)}
+                c = {'f': f, 's': r.choice(['', 'lower']) if f == 'add_alias' else '', 'x': r.randrange(1, 4) if f in ('add_contract', 'remove_contract') else r.randrange(1, 3)}
             elif f in ('run', 'runauth'):
                 c = {'f': f, 's': '', 'x': 0}
             else:
